@@ -1,6 +1,8 @@
 import UsualProofs.C02.Strict
 import UsualProofs.C02.Escapes
 import UsualProofs.C02.Relaxed
+import UsualProofs.C02.RfcFinal
+import UsualProofs.C02.Old
 /-!
 # C02 — JSON parser: total, strict and value-correct on every input
 
@@ -171,5 +173,60 @@ example : Decor strtodModel false St.init [0x5B,0x31,0x5D] [0x5B,0x31,0x2F,0x2A,
 example : parse strtodModel ⟨false, false⟩ [0x5B,0x31,0x5D] = .ok (.list [.int 1]) ∧
     parse strtodModel ⟨true, false⟩ [0x5B,0x31,0x2F,0x2A,0x63,0x2A,0x2F,0x2C,0x5D] = .ok (.list [.int 1]) :=
   ⟨rfl, rfl⟩
+
+/-- **Every RFC 8259 document is accepted and yields exactly the reference value — all four
+option sets.**
+
+`Rfc.parse rsd doc = some v` (`Usual/C03/Rfc.lean`, written from the RFC grammar): `doc` is a JSON
+text with unique object names and `v` is its value — integers exact, other numbers `rsd token`,
+strings un-escaped UTF-8, elements in order, members sorted by name (the order `json_dict_iter`
+reports).  The property's remaining preconditions are the two hypotheses:
+
+* `StrtodAgrees rsd sd` — on number tokens: the reference conversion `rsd` is defined only on
+  tokens shorter than `NUMBER_BUF` = 100 bytes that have a fraction or an exponent (so a document
+  with a longer token, or with an integer beyond ±(2^53−1), has no reference value) and there the
+  platform's `strtod` (`sd`) consumes the whole token and returns the same finite double —
+  "doubles correctly rounded" is this agreement with a correctly rounding `rsd`;
+* `okV v` — no string or name of `v` contains NUL (no U+0000) and no name exceeds `JSON_MAX_KEY`
+  = 1 MiB (an implementation limit of `real_dict_add_key`, reported as "Too large key").
+
+Then `json_parse` accepts `doc` under every option set and returns exactly `v`. -/
+theorem rfc_accepted (rsd : Bytes → Option UInt64) (sd : Bytes → UInt64 × Nat) (hsd : StrtodAgrees rsd sd)
+    (doc : Bytes) (v : JVal) (h : Rfc.parse rsd doc = some v) (hok : okV v) (o : Opts) :
+    parse sd o doc = .ok v :=
+  parse_of_rfc rsd sd o hsd doc v h hok
+
+-- `{"b":[1.5,"\u00e9",-0,null],"a":true}` with a reference `strtod` that knows the token `1.5`
+example :
+    let rsd : Bytes → Option UInt64 := fun tok => if tok = [0x31, 0x2E, 0x35] then some 0x3FF8000000000000 else none
+    let doc : Bytes := [0x7B,0x22,0x62,0x22,0x3A,0x5B,0x31,0x2E,0x35,0x2C,0x22,0x5C,0x75,0x30,0x30,0x65,0x39,0x22,
+      0x2C,0x2D,0x30,0x2C,0x6E,0x75,0x6C,0x6C,0x5D,0x2C,0x22,0x61,0x22,0x3A,0x74,0x72,0x75,0x65,0x7D]
+    let v : JVal := .dict [([0x61], .bool true),
+      ([0x62], .list [.float 0x3FF8000000000000, .str [0xC3, 0xA9], .int 0, .null])]
+    StrtodAgrees rsd strtodModel ∧ Rfc.parse rsd doc = some v ∧ okV v := by
+  refine ⟨?_, rfl, ?_⟩
+  · intro tok x h _
+    by_cases ht : tok = [0x31, 0x2E, 0x35]
+    · subst ht
+      simp only [if_true, Option.some.injEq] at h
+      subst h
+      exact ⟨by decide, by decide, rfl⟩
+    · simp [ht] at h
+  · simp [okV, okL, okM]
+    decide
+
+/-- **Defect F3 (unchanged code).**  The unchanged `parse_number` treats `errno == ERANGE` after
+`strtod` as failure; `strtod` sets it on inexact underflow, so the RFC 8259 document `5e-324`
+(value: the smallest subnormal, bits `0x1`) is rejected with "Number parse failed".  The repaired
+code (fixes/F03-json-subnormal.patch, the code the model mirrors) accepts it with that value. -/
+theorem F03_unchanged_rejects_subnormal (sd3 : Bytes → UInt64 × Nat × Bool) (h : sd3 tok5e324 = (1, 6, true)) :
+    convFloatOld sd3 tok5e324 = none ∧
+    convNumber (fun t => ((sd3 t).1, (sd3 t).2.1)) tok5e324 = some (.float 1) ∧
+    Rfc.parse (fun t => if t = tok5e324 then some 1 else none) tok5e324 = some (.float 1) :=
+  old_rejects_subnormal sd3 h
+
+-- the hypothesis is satisfiable: a `strtod` with exactly this behaviour on the token (glibc's; the
+-- correspondence run feeds `5e-324` to the real one on every run: corpus/C02, op `f`)
+example : ∃ sd3 : Bytes → UInt64 × Nat × Bool, sd3 tok5e324 = (1, 6, true) := ⟨fun _ => (1, 6, true), rfl⟩
 
 end UsualProps.C02
